@@ -61,6 +61,11 @@ def gen(t, tier):
           'minimize': bool(t.chance(0.25)) and not bulk, 'bulk': bulk, 'creators': t.pick([1, 1, 2, 3]),
           'policy': t.pick([['sticky', 0.1], ['sticky', 0.3], ['sticky', 0.6], ['random']]), 'mode': mode,
           'bufsize': t.pick([4096, 8192])}
+    if sc['backend']['type'] == 'compact' or sc['backend'].get('layout') in ('tc', 'tms'):
+        if not bulk and t.chance(0.3):
+            # full stack: WSGI application from the real loader, requests through TMS/WMTS/KML/WMS, simulated HTTP upstream
+            sc['stack'] = 'wsgi'
+            sc['svc'] = t.pick(['tms', 'wmts', 'kml', 'wmtskvp', 'wmsc'])
     # focus tile and a neighbour in another meta tile
     fx, fy = t.choice(n), t.choice(n)
     focus = [fx, fy, z]
@@ -160,6 +165,151 @@ def _all_coords(maxz):
 
 
 def run(sc, tape):
+    if sc.get('stack') == 'wsgi':
+        return _run_wsgi(sc, tape)
+    return _run_tm(sc, tape)
+
+
+class SourceError(Exception):
+    """an HTTP error response of the application in the full-stack configuration (upstream failure mode)"""
+
+
+def _run_wsgi(sc, tape):
+    import mapproxy.client.http as H
+    from PIL import Image
+    from io import BytesIO
+    from checks import fullstack as F
+    mode = sc['mode']
+    name = C.backend_name(sc['backend']) + '-wsgi'
+    w = World(tape, policy=tuple(sc['policy']), step_cap=600000)
+    sched = w.sched
+    http = F.SimHTTP(w)
+    w.extra_patches.append((H.HTTPClient, 'open', lambda self, url, data=None, method=None: http.open(self, url, data, method)))
+    stall_done = [False]
+    faults = {}
+
+    def plan(entry):
+        p = {'yields': tape.choice(3), 'latency': tape.pick([0, 0.001, 0.02, 0.2]), 'fail': False}
+        if mode == 'stall' and not stall_done[0] and entry['bbox'] and U.covers(entry['bbox'], sc['stall_tile']):
+            stall_done[0] = True
+            p['latency'] = 30.0
+            entry['stalled'] = True
+            faults['stalled_upstream_call'] = faults.get('stalled_upstream_call', 0) + 1
+        if mode == 'upfail' and tape.chance(0.3):
+            p['fail'] = True
+            faults['upstream_failure'] = faults.get('upstream_failure', 0) + 1
+        return p
+    http.plan = plan
+    b = sc['backend']
+    if b['type'] == 'file':
+        cache_conf = {'type': 'file', 'directory_layout': b['layout'], 'directory': C.CACHE_DIR}
+    else:
+        cache_conf = {'type': 'compact', 'version': b['version'], 'directory': C.CACHE_DIR}
+    conf = F.base_conf(cache_conf, meta_size=sc['meta_size'])
+    conf['caches']['c1']['meta_buffer'] = sc['meta_buffer']
+    conf['caches']['c1']['minimize_meta_requests'] = sc['minimize']
+    conf['caches']['c1']['concurrent_tile_creators'] = sc['creators']
+    del conf['sources']['src']['on_error']
+    conf['grids']['g']['num_levels'] = 6
+    conf['globals']['cache']['tile_lock_dir'] = LOCKDIR
+    responses = []
+    killed = []
+    svc = sc['svc']
+
+    def fetch_tile(app, coord, rec):
+        st, hd, body = F.wsgi_get(app, *F.url_for(svc, coord))
+        sched.check_alive()
+        if st != 200:
+            rec['exc'] = SourceError('HTTP %d: %r' % (st, body[:160])) if st == 500 else RuntimeError('HTTP %d: %r' % (st, body[:160]))
+            return False
+        try:
+            ok, g, msg = U.check_tile_image(Image.open(BytesIO(body)), coord)
+        except Exception as ex:
+            ok, g, msg = False, None, 'undecodable body: %r' % (ex,)
+        rec['tiles'].append((tuple(coord), ok, g, msg))
+        return True
+
+    def client(cname, app, reqs):
+        def fn():
+            for req in reqs:
+                rec = {'client': cname, 'req': req, 't0': w.clock.now, 'seq0': len(sched.log), 'tiles': [], 'exc': None}
+                try:
+                    if len(req) > 1 and svc == 'wmsc':
+                        # one WMS GetMap over the aligned 2x2 block of the first tile
+                        x, y, z = req[0]
+                        bx, by = x - x % 2, y - y % 2
+                        st, hd, body = F.wsgi_get(app, *F.url_for('wms4', (bx, by, z)))
+                        sched.check_alive()
+                        if st != 200:
+                            rec['exc'] = SourceError('HTTP %d: %r' % (st, body[:160])) if st == 500 else RuntimeError('HTTP %d' % st)
+                        else:
+                            img = Image.open(BytesIO(body)).convert('RGB')
+                            for dx in (0, 1):
+                                for dy in (0, 1):
+                                    crop = img.crop((dx * U.TS, (1 - dy) * U.TS, (dx + 1) * U.TS, (2 - dy) * U.TS))
+                                    ok, g, msg = U.check_tile_image(crop, (bx + dx, by + dy, z))
+                                    rec['tiles'].append(((bx + dx, by + dy, z), ok, g, msg))
+                            rec['req'] = [[bx + dx, by + dy, z] for dx in (0, 1) for dy in (0, 1)]
+                    else:
+                        for c in req:
+                            if not fetch_tile(app, c, rec):
+                                break
+                except (SimAbort, SimCrash):
+                    raise
+                except Exception as ex:
+                    import traceback
+                    rec['exc'] = ex
+                    rec['tb'] = ''.join(traceback.format_tb(ex.__traceback__)[-4:])
+                rec['t1'] = w.clock.now
+                rec['seq1'] = len(sched.log)
+                responses.append(rec)
+        return fn
+
+    kill_budget = [1 if mode == 'kill' else 0]
+
+    def on_yield(task, kind, key):
+        if kill_budget[0] and task.proc.name != 'p0' and task.proc.name.startswith('p') and tape.chance(0.01):
+            kill_budget[0] -= 1
+            faults['process_kill'] = faults.get('process_kill', 0) + 1
+            if any(n2.startswith(LOCKDIR) for n2 in _held_locks(w, task.proc)):
+                faults['process_kill_holding_tile_lock'] = faults.get('process_kill_holding_tile_lock', 0) + 1
+            killed.append(task.proc.name)
+            sched.crash_proc(task.proc, w.fs)
+
+    from mapproxy.grid import tile_grid
+    grid = tile_grid(3857, tile_size=(U.TS, U.TS), num_levels=6)
+    with w:
+        w.fs.buffer_size = sc['bufsize']
+        if mode == 'kill':
+            sched.on_yield = on_yield
+        for pi, p in enumerate(sc['procs']):
+            proc = w.new_proc('p%d' % pi)
+            app, pc = F.make_app(conf)
+            for ci, reqs in enumerate(p['clients']):
+                sched.spawn(client('p%dc%d' % (pi, ci), app, reqs), 'p%dc%d' % (pi, ci), proc)
+        outcome = w.run_tasks()
+        for t in sched.tasks:
+            if t.exc is not None:
+                raise t.exc
+        w.fs.sched = None
+        shared = {'log': [e for e in http.log if e.get('bbox')]}
+        v = _oracle(sc, w, mode, name, outcome, responses, shared, killed, sched, grid)
+    overlap = _overlap(responses, shared['log'])
+    probes = dict(w.fs.probes)
+    probes['upstream_calls'] = len(http.log)
+    if overlap:
+        probes['requests_overlapping_on_one_meta_tile'] = overlap
+    probes['mode_' + mode] = 1
+    probes['stack_wsgi'] = 1
+    return {'violation': v, 'digest': C.digest_of(sc['backend'], sc['procs'], svc, sched.log),
+            'nontrivial': overlap > 0, 'steps': sched.steps, 'sim_time': w.clock.now - 1.7e9, 'faults': faults,
+            'probes': probes,
+            'sample': {'backend': name, 'mode': mode, 'service': svc, 'meta_size': sc['meta_size'],
+                       'requests': [(r['client'], r['req'], 'exc' if r['exc'] else 'ok') for r in responses][:10],
+                       'upstream': [(e['gen'], e['task'], e['ok']) for e in http.log][:10]}}
+
+
+def _run_tm(sc, tape):
     from mapproxy.grid import tile_grid
     from mapproxy.cache.tile import TileManager, Tile
     from mapproxy.cache.base import TileLocker
